@@ -113,6 +113,8 @@ def conds_quote : List String := [
 def conds_params_set : List String := [
    "range ps",
    "range p.fds",
+   "if err != nil",
+   "return err",
    "if len(p.fds)-1 == i",
    "switch",
    "case fd.IsList()",
@@ -158,7 +160,8 @@ def conds_streamHTTP_RecvMsg : List String := [
 def conds_streamHTTP_decodeRequestArgs : List String := [
    "defer func() { if cap(b) < s.opts.maxReceiveMessageSize { *bytes = b bytesPool.Put(bytes) } }()",
    "if cap(b) < s.opts.maxReceiveMessageSize",
-   "range s.method.body",
+   "if err != nil",
+   "return -1, err",
    "if err != nil",
    "return -1, err",
    "if err != nil && !(err == io.EOF && count == 0 && isHTTPBody)",
